@@ -43,24 +43,50 @@ from mqt.yaqs.core.data_structures.simulation_parameters import AnalogSimParams 
 SPEC = {"ham_n": 0, "ham_bad": 0, "ham_worst": 0.0}
 
 # tolerances: largest deviations seen on the clean tree over seeds 0..9 (quick + thorough) were
-#   held-out prediction / comb entries, L <= 3, any back-end : 3e-14
-#   TJM on L = 4 (projection error of 2TDVP from a product state, dt = 0.01) : 4e-9   (thorough only)
+#   held-out prediction / comb entries, L <= 3, any back-end : 1.6e-13
+#   TJM on L = 4 (projection error of 2TDVP from a product state, dt = 0.01) : 5e-8   (thorough only)
 TOL_EXACT = 1e-9       # L <= 3: every back-end is exact up to rounding (TDVP bonds saturate)
-TOL_TJM4 = 2e-6        # L = 4 TJM: dt = 0.01, calibrated below
+TOL_TJM4 = 1e-5        # L = 4 TJM, dt = 0.01: 200 x the worst deviation seen (5.0e-8 over 60 runs)
 TOL_SYN = 1e-9
 
 
 # ----------------------------------------------------------------------------------------------- helpers
+class CodeRaised(Exception):
+    """an exception (or a nan/inf) that came out of the code under test — a verdict about the code, not a harness crash"""
+
+
+def finite(a, what="a value produced by the code under test"):
+    arr = np.asarray(a, dtype=complex)
+    if not np.all(np.isfinite(arr)):
+        raise CodeRaised(f"non-finite number (nan/inf) in {what}: {arr.reshape(-1)[:8]}")
+    return arr
+
+
 def cvec(a) -> str:
-    return " ".join(ib.cfrac(z) for z in np.asarray(a, dtype=complex).reshape(-1))
+    return " ".join(ib.cfrac(z) for z in finite(a).reshape(-1))
+
+
+def rfracs(xs, what) -> str:
+    return ib.fracs([float(x) for x in np.real(finite(xs, what)).reshape(-1)])
 
 
 def cfmt(a) -> str:
     out = []
-    for z in np.asarray(a, dtype=complex).reshape(-1):
+    for z in finite(a).reshape(-1):
         out.append(ib.fmt(z.real))
         out.append(ib.fmt(z.imag))
     return " ".join(out)
+
+
+def real(fn, *a, **kw):
+    try:
+        return fn(*a, **kw)
+    except Exception as e:  # noqa: BLE001
+        import traceback
+
+        tb = traceback.extract_tb(e.__traceback__)
+        where = "; ".join(f"{os.path.basename(f.filename)}:{f.lineno} {f.name}" for f in tb[-3:])
+        raise CodeRaised(f"{getattr(fn, '__qualname__', fn)} raised {type(e).__name__}: {e} [{where}]") from e
 
 
 def in_child(fn, arg, timeout):
@@ -72,6 +98,8 @@ def in_child(fn, arg, timeout):
         os.setsid()
         try:
             res = ("ok", fn(arg))
+        except CodeRaised as e:
+            res = ("raised", str(e))
         except BaseException as e:  # noqa: BLE001
             import traceback
 
@@ -95,6 +123,8 @@ def in_child(fn, arg, timeout):
     except (ProcessLookupError, PermissionError):
         pass
     p.join(5)
+    if res[0] == "raised":
+        raise CodeRaised(res[1])
     if res[0] != "ok":
         raise RuntimeError(f"child {fn.__name__}: {res[0]}: {res[1]}")
     return res[1]
@@ -246,8 +276,8 @@ def basis_index(vec):
 
 
 def make_pt(tensor, k):
-    choi, idx = tomo_mod.get_choi_basis()
-    duals = tomo_mod.calculate_dual_choi_basis(choi)
+    choi, idx = real(tomo_mod.get_choi_basis)
+    duals = real(tomo_mod.calculate_dual_choi_basis, choi)
     return ProcessTensor(tensor=tensor, weights=np.ones([16] * k), timesteps=[0.1] * k, choi_duals=duals,
                          choi_indices=idx, choi_basis=choi)
 
@@ -281,10 +311,13 @@ def gen(rng, tier):
             for k in (1, 2):
                 heldout.append({"kind": "heldout", "model": model, "solver": solver, "k": k, "L": rng.choice([2, 3]),
                                 "sub": rng.randrange(1 << 30)})
-    if tier != "quick":
-        for _ in range(6 * n):
-            heldout.append({"kind": "heldout", "model": rng.choice(["ising", "heis"]), "solver": rng.choice(["MCWF", "TJM"]),
-                            "k": rng.choice([1, 2, 2, 3]), "L": rng.choice([2, 3, 3, 4]), "sub": rng.randrange(1 << 30)})
+    for _ in range(4 if tier == "quick" else 6 * n):
+        solver = rng.choice(["MCWF", "TJM"])
+        k = rng.choice([1, 2, 2, 3])
+        if tier == "quick" and solver == "TJM" and k == 3:
+            k = 2  # 16^3 TDVP sequences cost ~40 s on a loaded machine: thorough only
+        heldout.append({"kind": "heldout", "model": rng.choice(["ising", "heis"]), "solver": solver, "k": k,
+                        "L": rng.choice([2, 3, 3] if tier == "quick" else [2, 3, 3, 4]), "sub": rng.randrange(1 << 30)})
     rng.shuffle(heldout)
     traces = [{"kind": "trace", "model": rng.choice(["ising", "heis"]), "solver": s, "k": k, "L": rng.choice([2, 3]),
                "sub": rng.randrange(1 << 30)} for (s, k) in (("MCWF", 2), ("TJM", 1), ("TJM", 2), ("MCWF", 1))]
@@ -297,6 +330,8 @@ def gen(rng, tier):
         yield a
         if b:
             yield b
+    for _ in range(3 * n):
+        yield {"kind": "layout", "sub": rng.randrange(1 << 30)}
     for _ in range(24 * n):
         yield {"kind": "predict", "k": rng.choice([1, 1, 2, 2, 2]), "sub": rng.randrange(1 << 30)}
     yield {"kind": "predict", "k": 3, "sub": rng.randrange(1 << 30)}
@@ -308,9 +343,9 @@ def gen(rng, tier):
 
 # ----------------------------------------------------------------------------------------------- frame
 def run_frame(_inp):
-    basis = tomo_mod.get_basis_states()
-    choi, idx = tomo_mod.get_choi_basis()
-    duals = tomo_mod.calculate_dual_choi_basis(choi)
+    basis = real(tomo_mod.get_basis_states)
+    choi, idx = real(tomo_mod.get_choi_basis)
+    duals = real(tomo_mod.calculate_dual_choi_basis, choi)
     out = []
     for p in range(4):
         _, psi, rho = basis[p]
@@ -353,7 +388,7 @@ def rational_c(r, den):
 
 
 def predict_case(pt, k, js, names, kind, sig, tensor_for_req):
-    pred = pt.predict_final_state([map_of_choi(j) for j in js])
+    pred = real(pt.predict_final_state, [map_of_choi(j) for j in js])
     req = f"predict {k} | {cvec(tensor_for_req)} | " + " | ".join(cvec(j) for j in js)
     ws = [expansion_in(pt.choi_basis, j) for j in js]
     exp = multilinear(np.asarray(pt.tensor), ws).reshape(2, 2)
@@ -415,14 +450,33 @@ def run_predict(inp):
     return predict_case(pt, k, js, names, "predict", f"predict:{k}:{'/'.join(names)}", t)
 
 
+def run_layout(inp):
+    """where tensor[o, a_0, …] ends up in to_linear_map_matrix() vs the model's C-order flat index"""
+    r = random.Random(inp["sub"])
+    k = r.choice([1, 2, 3])
+    out = []
+    for _ in range(3):
+        o, a = r.randrange(4), [r.randrange(16) for _ in range(k)]
+        t = np.zeros([4] + [16] * k, dtype=complex)
+        t[(o, *a)] = 1.0  # the way run() fills it: process_tensor_data[(slice, *seq)] = rho_vec
+        pt = make_pt(t, k)
+        mat = real(pt.to_linear_map_matrix)
+        hits = np.argwhere(np.asarray(mat) != 0)
+        ok = mat.shape == (4, 16**k) and len(hits) == 1 and int(hits[0][0]) == o
+        pos = int(hits[0][0]) * 16**k + int(hits[0][1]) if len(hits) == 1 else -1
+        out.append({"req": f"flatidx {k} {o} | {' '.join(map(str, a))}", "impl": str(pos), "kind": "layout", "sig": f"layout:{k}:{o}:{a}",
+                    "oracle": {"ok": bool(ok), "detail": f"to_linear_map_matrix shape {mat.shape}, marker of [{o},{a}] found at {hits.tolist()}"}})
+    return out
+
+
 # ----------------------------------------------------------------------------------------------- reprepare
 def reprep_case(d, m, p, psi_in, prob, psi_out, kind, sig):
     basis = tomo_mod.get_basis_states()
     dens = np.outer(psi_out, psi_out.conj())
     req = f"reprep {d} {m} {p} | {cvec(psi_in)}"
-    impl = f"{ib.fmt(prob)} {cfmt(dens)}"
-    # direct: prob = <psi|E_m (x) 1|psi>,  state = rho_p (x) <m|psi><psi|m> / prob
-    own = own_basis()
+    impl = f"{ib.fmt(finite(prob, 'projection probability').real)} {cfmt(dens)}"
+    # direct: prob = <psi|E_m (x) 1|psi>,  state = rho_p (x) <m|psi><psi|m> / prob   (E_m, rho_p: the code's own probes)
+    own = [b[1] for b in basis]
     e_m = np.outer(own[m], own[m].conj())
     rho_in = np.outer(psi_in, psi_in.conj())
     pr = float(np.real(np.trace(np.kron(e_m, np.eye(d)) @ rho_in)))
@@ -444,7 +498,6 @@ def reprep_case(d, m, p, psi_in, prob, psi_out, kind, sig):
         if dev2 > 1e-9 * sc:
             probs.append(f"prob * state deviates from (A_pm x id)(rho) by {dev2:.2e}")
     edge = abs(pr - 1e-15) < 1e-17 or (0 < pr < 1e-9)
-    _ = basis
     return {"req": req, "impl": impl, "kind": kind, "sig": sig, "edge": bool(edge), "nontrivial": pr > 1e-9,
             "oracle": {"ok": not probs, "detail": "; ".join(probs) or f"prob={pr:.6g}"}}
 
@@ -472,7 +525,7 @@ def run_reprep_vec(inp):
     m, p = r.randrange(4), r.randrange(4)
     style, psi = random_state(r, g, d)
     basis = tomo_mod.get_basis_states()
-    new_psi, prob = tomo_mod._reprepare_site_zero_vector_forced(psi.copy(), basis[m][1], basis[p][1])  # noqa: SLF001
+    new_psi, prob = real(tomo_mod._reprepare_site_zero_vector_forced, psi.copy(), basis[m][1], basis[p][1])  # noqa: SLF001
     return reprep_case(d, m, p, psi, prob, new_psi, "reprep-vec", f"vec:{d}:{m}:{p}:{style}:{prob > 1e-9}")
 
 
@@ -504,7 +557,7 @@ def run_reprep_mps(inp):
         mps.normalize()
     psi = mps_dense(mps)
     basis = tomo_mod.get_basis_states()
-    prob = tomo_mod._reprepare_site_zero_forced(mps, basis[m][1], basis[p][1])  # noqa: SLF001
+    prob = real(tomo_mod._reprepare_site_zero_forced, mps, basis[m][1], basis[p][1])  # noqa: SLF001
     out = mps_dense(mps)
     d = 2 ** (length - 1)
     c = reprep_case(d, m, p, psi, prob, out, "reprep-mps", f"mps:{length}:{chi}:{m}:{p}:{style}:{prob > 1e-9}")
@@ -530,8 +583,14 @@ def setup_run(inp):
         durations = [r.choice([0.02, 0.03, 0.05]) for _ in range(k)]
     else:
         dt = r.choice([0.05, 0.1, 0.1, 0.25])
-        durations = [dt * r.choice([1, 1, 2, 3]) for _ in range(k)]
+        # decimal literals (0.3, 0.15, …): duration/dt is then *not* an exact integer in binary64 (0.3/0.1 = 2.9999…),
+        # which is what `int(np.round(duration / dt))` in the worker has to cope with
+        durations = [round(dt * r.choice([1, 1, 2, 3, 3]), 12) for _ in range(k)]
     order = r.choice([1, 2])
+    if "durations" in inp:  # explicit input (corpus / replay of an off-grid finding)
+        dt = float(inp["dt"])
+        durations = [float(x) for x in inp["durations"]]
+        order = int(inp.get("order", order))
     op = make_operator(model, n, c)
     h = dense_hamiltonian(model, n, c)
     hm = op.to_matrix()
@@ -555,7 +614,7 @@ def heldout_cases(pt, h, n, durations, tol, g, count, meta, kind):
             nm, em = heldout_map(g, slot)
             names.append(nm)
             emaps.append(em)
-        pred = pt.predict_final_state(emaps)
+        pred = real(pt.predict_final_state, emaps)
         ref = exact_final(h, n, durations, emaps)
         dev = float(np.abs(pred - ref).max())
         out.append({"req": None, "impl": None, "kind": kind, "nontrivial": True,
@@ -566,15 +625,17 @@ def heldout_cases(pt, h, n, durations, tol, g, count, meta, kind):
 
 
 def comb_entry_cases(pt, h, n, durations, tol, meta, kind):
-    """every tensor entry vs the exact unnormalised comb entry of the probe maps rho -> |psi_p><psi_m| rho |psi_m><psi_p|"""
-    own = own_basis()
+    """every tensor entry vs the exact unnormalised comb entry of the probe maps rho -> |psi_p><psi_m| rho |psi_m><psi_p|
+    (psi: the code's own probe states, alpha -> (p, m) by the code's own index list)"""
+    own = [b[1] for b in tomo_mod.get_basis_states()]
+    cidx = [tuple(x) for x in pt.choi_indices]
     k = len(durations)
     worst, where = 0.0, None
     wworst = 0.0
     import itertools
 
     for seq in itertools.product(range(16), repeat=k):
-        emaps = [kraus_map([np.outer(own[a // 4], own[a % 4].conj())]) for a in seq]
+        emaps = [kraus_map([np.outer(own[cidx[a][0]], own[cidx[a][1]].conj())]) for a in seq]
         ref = exact_final(h, n, durations, emaps)
         got = np.asarray(pt.tensor)[(slice(None), *seq)].reshape(2, 2)
         dev = float(np.abs(got - ref).max())
@@ -588,9 +649,10 @@ def comb_entry_cases(pt, h, n, durations, tol, meta, kind):
 
 
 def child_heldout(inp):
+    SPEC.update(ham_n=0, ham_bad=0, ham_worst=0.0)
     r, op, h, params, durations, tol, meta = setup_run(inp)
     g = np.random.default_rng(inp["sub"])
-    pt = tomo_mod.run(op, params, timesteps=list(durations))  # the real thing, real process pool
+    pt = real(tomo_mod.run, op, params, timesteps=list(durations))  # the real thing, real process pool
     n = meta["L"]
     out = heldout_cases(pt, h, n, durations, tol, g, 5 if len(durations) < 3 else 3, meta, "heldout")
     if len(durations) <= 2:
@@ -600,6 +662,9 @@ def child_heldout(inp):
 
 def run_heldout(inp):
     out, spec = in_child(child_heldout, inp, 240)
+    if inp.get("key"):
+        for c in out:
+            c["key"] = inp["key"]
     for kk in ("ham_n", "ham_bad"):
         SPEC[kk] += spec[kk]
     SPEC["ham_worst"] = max(SPEC["ham_worst"], spec["ham_worst"])
@@ -607,6 +672,7 @@ def run_heldout(inp):
 
 
 def child_trace(inp):
+    SPEC.update(ham_n=0, ham_bad=0, ham_worst=0.0)
     r, op, h, params, durations, tol, meta = setup_run(inp)
     g = np.random.default_rng(inp["sub"] + 1)
     k, n = len(durations), meta["L"]
@@ -643,7 +709,7 @@ def child_trace(inp):
     tomo_mod._reprepare_site_zero_forced = spy_mps  # noqa: SLF001
     tomo_mod.run_backend_parallel = serial
     try:
-        pt = tomo_mod.run(op, params, timesteps=list(durations))
+        pt = real(tomo_mod.run, op, params, timesteps=list(durations))
     finally:
         tomo_mod._reprepare_site_zero_vector_forced = orig_vec  # noqa: SLF001
         tomo_mod._reprepare_site_zero_forced = orig_mps  # noqa: SLF001
@@ -665,7 +731,8 @@ def child_trace(inp):
         got_pm = [(c["p"], c["m"]) for c in cl]
         ok = exp_pm == got_pm and int(res[0]) == [tuple(int(x) for x in q) for q in seqs].index(s)
         edge = any(abs(np.prod(probs[: i + 1]) - 1e-15) < 1e-17 for i in range(len(probs)))
-        out.append({"req": f"weights {k} | {ib.fracs(probs)}", "impl": f"{ib.fmt(res[3])} {len(cl)}", "kind": "trace-weights",
+        out.append({"req": f"weights {k} | {rfracs(probs, f'projection probabilities of sequence {s}')}",
+                    "impl": f"{ib.fmt(finite(res[3], 'sequence weight').real)} {len(cl)}", "kind": "trace-weights",
                     "sig": f"weights:{k}:{len(cl)}:{res[3] < 1e-15}:{meta['solver']}", "edge": bool(edge), "nontrivial": True,
                     "oracle": {"ok": bool(ok), "detail": f"sequence {s}: probes applied (p,m) {got_pm}, expected {exp_pm}"}})
     # 2. re-preparations seen in situ
@@ -719,16 +786,26 @@ def run_trace(inp):
 
 
 def run(inp):
+    try:
+        return run_inner(inp)
+    except CodeRaised as e:
+        return {"req": None, "impl": None, "kind": str(inp["kind"]) + "-raised", "sig": f"raised:{inp['kind']}", "nontrivial": True,
+                "oracle": {"ok": False, "detail": f"the code under test raised on {({k: v for k, v in inp.items()})}: {e}"}}
+
+
+def run_inner(inp):
     k = inp["kind"]
     if k == "frame":
         return run_frame(inp)
     if k == "predict":
         return run_predict(inp)
+    if k == "layout":
+        return run_layout(inp)
     if k == "reprep-vec":
         return run_reprep_vec(inp)
     if k == "reprep-mps":
         return run_reprep_mps(inp)
-    if k == "heldout":
+    if k in ("heldout", "offgrid"):
         return run_heldout(inp)
     if k == "trace":
         return run_trace(inp)
